@@ -145,6 +145,36 @@ theorem get_after_set (he : WFEnv e) (hi : Inv e s) (hh : HOK s h) {name : Strin
           (by rw [hbase]; exact hget)
         rw [hbase] at this; exact this
 
+/-! ## "… until it is deleted" -/
+
+/-- any sequence of `set` / `del` / `get` on the node's `meta` handle that does not delete the
+schema name of a stored object leaves that object in place with its bytes (whatever the outcomes
+of the individual operations are); `get_stored` then applies to the resulting state -/
+theorem stored_until_deleted (he : WFEnv e) (hi : Inv e s) {x : Path} {k : Bool} (hx : isInternal x = false)
+    (hk : nodeKind s x = some k) (ops : List MetaOp) {q : SRef} {u : Nat} {tok : String}
+    (hobj : get? s.raw (metaBase x k ++ [.obj q u]) = some (.ds (.data tok)))
+    (hnd : ∀ n, MetaOp.del n ∈ ops → n ≠ q.name) :
+    get? (opMeta e x ops s).2.raw (metaBase x k ++ [.obj q u]) = some (.ds (.data tok)) := by
+  unfold opMeta guardPath
+  simp only [hx, Bool.false_eq_true, if_false, bind, M.bind, run_pure, run_getSt, hk, run_ofOpt_some, metaSeq]
+  exact metaSeq_keeps he ops hi (openHandle_HOK hi hx hk) (h := openHandle s x k) hobj hnd
+
+/-- creating other nodes does not touch stored objects -/
+theorem stored_survives_create {p : Path} {n : Node} (hobj : get? s.raw p = some n) (q : Path) (tok : String) :
+    get? (opCreateGroup q s).2.raw p = some n ∧ get? (opCreateDataset q tok s).2.raw p = some n :=
+  ⟨opCreateGroup_keeps q hobj, opCreateDataset_keeps q tok hobj⟩
+
+/-- deleting a node does not touch the objects of nodes that are neither that node nor below it -/
+theorem stored_survives_delete (he : WFEnv e) (hi : Inv e s) (p : Path) {k : Bool}
+    (hk : nodeKind s p = some k) {pp : Path} {r : SRef} {u : Nat} {tok : String}
+    (ho : ObjAt s.raw pp r u) (htok : get? s.raw pp = some (.ds (.data tok)))
+    (hnp : ¬ p <+: pp) (hnd : pp.dropLast ≠ metaBase p k) :
+    get? (opDelete p s).2.raw pp = some (.ds (.data tok)) :=
+  opDelete_keeps he hi p hk ho htok hnp hnd
+
+/-- closing and reopening does not change the stored tree at all -/
+theorem stored_survives_reopen : (opReopen s).2.raw = s.raw := rfl
+
 /-! ## at most one object per schema; refused schemas -/
 
 /-- *"each node holds at most one object per schema"* (state): two objects with the same schema
@@ -224,12 +254,12 @@ open MetadorModel.C06 in
 /-- in the state after `C06.hist1` (dataset `/g/d` carries a `vt.cc` object): a container-level
 query for the grandparent schema `vt.aa` finds the dataset, a query for the sibling branch does not -/
 example : tocQuery (run env3 initSt hist1) [] "vt.aa" none = .ok [[.user "g", .user "d"]] ∧
-    tocQuery (run env3 initSt hist1) [] "ot.dd" none = .ok [] := by decide
+    tocQuery (run env3 initSt hist1) [] "ot.dd" none = .ok [] := by decide +kernel
 
 open MetadorModel.C06 in
 /-- … and `get` by the grandparent schema yields the stored bytes parsed as `vt.aa` -/
 example : ((openHandle (run env3 initSt hist1) [.user "g", .user "d"] true).get env3 (run env3 initSt hist1)
     "vt.aa" none).toOption.join.map (fun g => (g.parsedAs, g.stored.schema, g.tok)) = some (aa, cc, "t1") := by
-  decide
+  decide +kernel
 
 end MetadorModel.C07
